@@ -157,3 +157,5 @@ func Verif_C10_X0_GetOutcomes() { verifScenarioHierGet() }
 
 // Existence checks refresh under the name that answered, never under a wider one.
 func Verif_C10_X0_FindMissingOutcomes() { verifScenarioHierFindMissing() }
+
+func Verif_C10_X0_FindMissingTwoObjects() { verifScenarioHierFindMissingTwo() }
